@@ -672,6 +672,7 @@ int main(int argc, char **argv)
         __sanitizer_set_death_callback(on_death);
         signal(SIGABRT, on_abort);
         f_install();
+    f_on_hang = on_death;
         return do_que_random(strtoul(argv[2], 0, 10), atoi(argv[3]), atoi(argv[4]), argv[5], atoi(argv[6]));
     }
     if (argc < 5 || strcmp(argv[1], "edges"))
@@ -682,6 +683,7 @@ int main(int argc, char **argv)
     __sanitizer_set_death_callback(on_death);
     signal(SIGABRT, on_abort);
     f_install();
+    f_on_hang = on_death;
     if (argc > 6)
     {
         fault_out = fopen(argv[6], skip_until ? "a" : "w");
